@@ -1,6 +1,6 @@
 import TakVerif.Impl.Friendly
 
-/-! `cmd/internal/playtak/fpa.go` **with** `fixes/C07-fpa-script-decline.diff`: the scripts of the double-stack and the
+/-! `cmd/internal/playtak/fpa.go` **with** `fixes/C07-fpa-script-declines.diff`: the scripts of the double-stack and the
 cairn rule decline instead of panicking.
 
 `(*DoubleStack).GetMove` and `(*Cairn).GetMove` begin with `defer declineOnPanic(&m, &ok)`; `declineOnPanic` is
@@ -12,7 +12,7 @@ write nothing before they panic (they only read the rule's notes), so the deferr
 with every error turned into `ok = false`.  `(*CenterBlack).GetMove` is unchanged (it has no `defer`, and no panic). -/
 namespace Tak.FPA
 
-/-- `FPARule.GetMove` after `fixes/C07-fpa-script-decline.diff` -/
+/-- `FPARule.GetMove` after `fixes/C07-fpa-script-declines.diff` -/
 def getMoveD (var : Variant) (r : Rule) (v : View) : R (Option Move) :=
   match var with
   | .center => getMove .center r v
@@ -33,7 +33,7 @@ def fpaScriptD (fpa : Option (Variant × Rule)) (p : Pos) : R (Option Move) :=
   | none => .ok none
   | some (var, r) => getMoveD var r (viewOfPos p)
 
-/-- `(*Friendly).GetMove(ctx, p, mine, theirs)` on the tree with `fixes/C07-fpa-script-decline.diff` (and
+/-- `(*Friendly).GetMove(ctx, p, mine, theirs)` on the tree with `fixes/C07-fpa-script-declines.diff` (and
 `fixes/C07-fpa-record-notes.diff`): `friendlyGetMove` with the declining scripts -/
 def friendlyGetMoveD (fpa : Option (Variant × Rule)) (g : GameRec) (p : Pos) (o : CheckOracle) :
     R (Option (Variant × Rule) × Action) := do
